@@ -219,6 +219,67 @@ int32_t carquet_schema_add_group(
  * ============================================================================
  */
 
+/* Find the leaf whose dot-separated path (names of its ancestors below the
+ * root, then its own name) is `name`. One walk over the depth-first element
+ * list; for every open group it remembers how much of `name` the path down to
+ * that group has matched. */
+static int32_t find_column_by_path(const carquet_schema_t* schema, const char* name) {
+    int32_t n = schema->num_elements;
+    if (n < 2 || schema->num_leaves < 1) {
+        return -1;
+    }
+
+    const size_t NO_MATCH = (size_t)-1;
+    int32_t* remaining = malloc((size_t)n * sizeof(int32_t));
+    size_t* matched = malloc((size_t)n * sizeof(size_t));
+    if (!remaining || !matched) {
+        free(remaining);
+        free(matched);
+        return -1;
+    }
+
+    int32_t result = -1;
+    int32_t depth = 0;
+    int32_t leaf = 0;
+    remaining[0] = schema->elements[0].num_children;
+    matched[0] = 0;
+
+    for (int32_t i = 1; i < n && result < 0; i++) {
+        while (depth > 0 && remaining[depth] <= 0) {
+            depth--;
+        }
+        remaining[depth]--;
+
+        const char* elem_name = schema->elements[i].name ? schema->elements[i].name : "";
+        size_t after = NO_MATCH;
+        if (matched[depth] != NO_MATCH) {
+            const char* at = name + matched[depth];
+            if (depth > 0) {
+                at = (*at == '.') ? at + 1 : NULL;
+            }
+            size_t len = strlen(elem_name);
+            if (at && strncmp(at, elem_name, len) == 0) {
+                after = (size_t)(at - name) + len;
+            }
+        }
+
+        if (leaf < schema->num_leaves && schema->leaf_indices[leaf] == i) {
+            if (after != NO_MATCH && name[after] == '\0') {
+                result = leaf;
+            }
+            leaf++;
+        } else {
+            depth++;
+            remaining[depth] = schema->elements[i].num_children;
+            matched[depth] = after;
+        }
+    }
+
+    free(remaining);
+    free(matched);
+    return result;
+}
+
 int32_t carquet_schema_find_column(
     const carquet_schema_t* schema,
     const char* name) {
@@ -233,7 +294,8 @@ int32_t carquet_schema_find_column(
         }
     }
 
-    return -1;
+    /* Not a leaf's own name: a dot-separated path ("address.city") */
+    return find_column_by_path(schema, name);
 }
 
 int32_t carquet_schema_num_columns(const carquet_schema_t* schema) {
